@@ -74,14 +74,18 @@ def build_phase(prop, result):
 
 def run_cases(prop, inputs):
     """-> list of dict(input, obs, model, holds, why)"""
-    obs = prop.impl_batch(inputs)
+    raw = prop.impl_batch(inputs)
+    # a property may derive the driver's case / observation from what the implementation run produced
+    # (e.g. scheduler runs: the op list is generated adaptively while the real scheduler runs)
+    triples = [(i, prop.driver_input(i, r), prop.driver_obs(i, r)) for i, r in zip(inputs, raw)
+               if not prop.skip_case(i, r)]
     drv = core.Driver(prop.drv or prop.id)
-    replies = drv.batch(list(zip(inputs, obs)))
+    replies = drv.batch([(di, o) for _i, di, o in triples])
     out = []
-    for i, o, r in zip(inputs, obs, replies):
+    for (i, di, o), r in zip(triples, replies):
         if 'err' in r:
             raise Infra(f'driver could not decode a case: {r["err"]}: {json.dumps(i)[:300]}')
-        out.append({'input': i, 'obs': o, 'model': r['m'], 'holds': r['h'], 'why': r.get('why', '')})
+        out.append({'input': prop.replay_input(i, di), 'obs': o, 'model': r['m'], 'holds': r['h'], 'why': r.get('why', '')})
     return out
 
 
